@@ -39,6 +39,13 @@ def worker(prop, tier, seed, shard, nshards, out, only=None, second=False):
     mod = importlib.import_module("vmon.props." + prop)
     ctx = Ctx(prop, tier, seed, Findings())
     specs = mod.cases(tier)
+    rep = getattr(mod, "THOROUGH_REPEAT", 1) if tier == "thorough" else 1
+    if rep > 1:
+        # deeper thorough tier: the randomised case kinds are run rep times (a case's generator is seeded by its position, so repeats are new inputs)
+        skip = set(getattr(mod, "THOROUGH_REPEAT_SKIP", ())) | {"suite"}
+        base = list(specs)
+        for _ in range(rep - 1):
+            specs = specs + [s_ for s_ in base if s_[0] not in skip]
     ctx.solver_time_limit = getattr(mod, "SOLVER_TIME_LIMIT", 30)
     if hasattr(mod, "setup"):
         mod.setup(ctx)
